@@ -53,7 +53,7 @@ func CanonName(fn *ssa.Function) string {
 			pkg = n.Obj().Pkg()
 		}
 	}
-	rel := fn.RelString(pkg)
+	rel := stripTypeArgs(fn.RelString(pkg))
 	if pkg == nil {
 		return rel
 	}
@@ -89,7 +89,7 @@ func Load(repo string) (*Program, error) {
 		}
 		return nil, fmt.Errorf("package load errors:\n%s", strings.Join(errs, "\n"))
 	}
-	prog, _ := ssautil.AllPackages(pkgs, ssa.InstantiateGenerics)
+	prog, _ := ssautil.AllPackages(pkgs, ssa.InstantiateGenerics|ssa.GlobalDebug)
 	p := &Program{RepoDir: repo, Pkgs: pkgs, SSA: prog, Funcs: map[string]*ssa.Function{}, PkgByPath: map[string]*packages.Package{}}
 	packages.Visit(pkgs, nil, func(pk *packages.Package) { p.PkgByPath[pk.PkgPath] = pk })
 	for _, pk := range pkgs {
@@ -166,4 +166,21 @@ func FuncPkgPath(fn *ssa.Function) string {
 		return root.Object().Pkg().Path()
 	}
 	return ""
+}
+
+// stripTypeArgs removes type-parameter lists from a name: "(*OrderedMap[K, V]).Set" -> "(*OrderedMap).Set".
+func stripTypeArgs(s string) string {
+	var b strings.Builder
+	depth := 0
+	for _, r := range s {
+		switch {
+		case r == '[':
+			depth++
+		case r == ']':
+			depth--
+		case depth == 0:
+			b.WriteRune(r)
+		}
+	}
+	return b.String()
 }
